@@ -22,3 +22,43 @@ int getln(substdio *ss, stralloc *sa, int *match, int sep)
     if ((unsigned char) ch == (unsigned char) sep) { *match = 1; return 0; }
   }
 }
+
+/* getln2() over the ideal stream.  Contract of the real getln2.c (C20 l0_getln): the line
+ * up to and including the first sep is delivered in TWO pieces - what earlier buffer
+ * fills carried over is appended to sa, the rest (always containing the separator) is
+ * returned in place as (*cont, *clen); *clen == 0 means end of input, with whatever came
+ * before it in sa.  Where the split falls depends on the read-buffer boundary, i.e. on
+ * nothing the caller controls: the harness chooses it through ideal_getln2_split(), so a
+ * caller that looks at only one of the two pieces is exposed at every boundary position. */
+#ifndef IDEAL_LINE_MAX
+#define IDEAL_LINE_MAX 64
+#endif
+extern unsigned int ideal_getln2_split(unsigned int linelen);   /* 0 .. linelen-1 bytes go to sa */
+
+int getln2(substdio *ss, stralloc *sa, char **cont, unsigned int *clen, int sep)
+{
+  static char piece[IDEAL_LINE_MAX];
+  unsigned int n = 0, k, i;
+  int match = 0;
+  if (!stralloc_ready(sa, 0)) return -1;
+  sa->len = 0;
+  for (;;) {
+    int c = ideal_getc(ss);
+    if (c == -2) return -1;
+    if (c == -1) break;
+    if (n >= IDEAL_LINE_MAX) return -1;            /* harness sizing: treated as out of memory */
+    piece[n++] = (char) c;
+    if ((unsigned char) c == (unsigned char) sep) { match = 1; break; }
+  }
+  if (!match) {                                      /* end of input: everything read so far is in sa */
+    for (i = 0; i < n; ++i) if (!stralloc_append(sa, piece + i)) return -1;
+    *clen = 0;
+    return 0;
+  }
+  k = ideal_getln2_split(n);
+  if (k >= n) k = n - 1;
+  for (i = 0; i < k; ++i) if (!stralloc_append(sa, piece + i)) return -1;
+  *cont = piece + k;
+  *clen = n - k;
+  return 0;
+}
